@@ -27,6 +27,19 @@ func (u *upgrade) Reset() {
 	*u = upgrade{}
 }
 
+// valid reports whether the flag combination is one the request dispatcher can serve:
+// a heartbeat, an open-stream or a close-stream request never carries a reply, and a plain
+// call always carries a request body and expects a reply.
+func (u *upgrade) valid() bool {
+	if u.Heartbeat == heartbeat || u.Stream == openStream || u.Stream == closeStream {
+		return u.NoResponse == noResponse
+	}
+	if u.Stream == streaming {
+		return true
+	}
+	return u.NoRequest != noRequest && u.NoResponse != noResponse
+}
+
 func (u *upgrade) IsZero() bool {
 	return u.NoRequest+u.NoResponse+u.Heartbeat+u.Stream == 0
 }
